@@ -36,6 +36,11 @@ func (e *emitter) flush() {
 }
 
 func (e *emitter) add(c Case) {
+	// the case being run, for the orchestrator to report should the code under
+	// test crash the process from a goroutine the harness cannot guard
+	if b, err := json.Marshal(c); err == nil {
+		os.WriteFile(e.dir+"/inflight.json", b, 0o644)
+	}
 	nm := e.cf.Names
 	var term string
 	nontrivial := false
@@ -137,6 +142,7 @@ func main() {
 		}
 		e.flush()
 		meta.Write(o.Out)
+		os.Remove(o.Out + "/inflight.json")
 		return
 	}
 
@@ -220,4 +226,5 @@ func main() {
 	if err := meta.Write(o.Out); err != nil {
 		vh.Die("meta: %v", err)
 	}
+	os.Remove(o.Out + "/inflight.json")
 }
